@@ -143,6 +143,10 @@ pub struct OrderedLocalQueue<'l, T: Debug> {
     shared: &'l OrderedWorkStealQueue<T>,
     stealing: AtomicBool,
     queue: &'l SkipMap<c_longlong, Worker<T>>,
+    /// Serialises the operations that act as the owner of the local rings (push, pop and
+    /// stealing into them): items are pushed from arbitrary threads while the scheduling
+    /// thread pops, and a ring supports only one owner at a time.
+    owner: std::sync::Mutex<()>,
 }
 
 impl<T: Debug> Drop for OrderedLocalQueue<'_, T> {
@@ -173,6 +177,7 @@ impl<'l, T: Debug> OrderedLocalQueue<'l, T> {
             shared,
             stealing: AtomicBool::new(false),
             queue,
+            owner: std::sync::Mutex::new(()),
         }
     }
 
@@ -288,6 +293,10 @@ impl<'l, T: Debug> OrderedLocalQueue<'l, T> {
     /// assert_eq!(local.pop(), None);
     /// ```
     pub fn push_with_priority(&self, priority: c_longlong, item: T) {
+        let _owner = self
+            .owner
+            .lock()
+            .unwrap_or_else(std::sync::PoisonError::into_inner);
         if self.is_local_full() {
             self.push_to_global(priority, item);
             return;
@@ -379,6 +388,10 @@ impl<'l, T: Debug> OrderedLocalQueue<'l, T> {
     /// assert_eq!(queue.pop(), None);
     /// ```
     pub fn pop(&self) -> Option<T> {
+        let _owner = self
+            .owner
+            .lock()
+            .unwrap_or_else(std::sync::PoisonError::into_inner);
         //每从本地弹出61次，就从全局队列弹出
         if self.tick().is_multiple_of(61) {
             if let Some(val) = self.shared.pop() {
